@@ -267,6 +267,31 @@ def relex_diff(t: dict):
     return i, tok_view(t, toks)[i:i + 4], tok_view(t, rel["toks"])[i:i + 4]
 
 
+def glue_culprit(t: dict) -> Optional[str]:
+    """Rule whose adopted batch first put the two leaves that re-lex as one token next to each other (read off the
+    recorded token lists; None if the trace does not show it).  For messages/signatures only."""
+    d = relex_diff(t)
+    if not d or len(d[1]) < 2:
+        return None
+    a, b = d[1][0][0], d[1][1][0]
+
+    def adjacent(toks: dict) -> bool:
+        tx = [x[0] for x in tok_view(t, toks)]
+        return any(tx[i] == a and tx[i + 1] == b for i in range(len(tx) - 1))
+
+    evs = t["events"]
+    prev = evs[0]["toks"] if evs and evs[0]["ev"] == "Begin" else None
+    if prev is None:
+        return None
+    for ap in adoptions(t):
+        if not ap["has"]:
+            continue
+        if adjacent(ap["toks"]) and not adjacent(prev):
+            return ap["rule"]
+        prev = ap["toks"]
+    return None
+
+
 def lex_signature(t: dict) -> Tuple[str, str]:
     """('merge'|'split'|'stable', 'type+type->lexertype') for the first lexical instability of the fixed tree."""
     d = relex_diff(t)
